@@ -177,6 +177,9 @@ FIXED = [
     ("C16", "82bae26", "str/repr of complex coefficients with negative real part lost the '+' between terms"),
     ("C11", "e66f54d", "count_nonzero ignored keepdims"),
     ("C08", "93489bd", "ufunc.reduce/accumulate without numpoly counterpart (numpy.subtract.reduce(p)) raised KeyError instead of FeatureNotSupported"),
+    ("C06", "0c16034", "derivative(p, numpoly.variable(3)[0]) raised AssertionError under retain_coefficients=True (reported by a seeding sub-agent as a side finding, then reproduced by the extended driver)"),
+    ("C06", "6fed986", "derivative by positional index picked the wrong variable after an earlier pass re-ordered unsorted indeterminants (retain_names=False)"),
+    ("C06", "dcf989d", "hessian was not symmetric for polynomials whose names are not stored in index order"),
     ("C03", "64ca5a4", "monomial over an empty index range in D > 1 dimensions returned an object whose storage key width (1) did not match its D names"),
 ]
 
